@@ -298,6 +298,11 @@ func tbsExtraSig(typ string, f *testsmellgen.File, m *testsmellgen.Method, alrea
 				three = true
 			}
 		}
+		for _, c := range m.Calls {
+			if c.NArgs == 2 && !c.Identical && strings.HasSuffix(c.Form, "long-arguments") {
+				return "redundantassertiontest-extra/method-has-two-argument-call-with-long-arguments-differing-near-their-end"
+			}
+		}
 		switch {
 		case two:
 			return "redundantassertiontest-extra/method-has-two-argument-call-with-different-arguments"
